@@ -133,8 +133,6 @@ Section Run.
         let '(s', err) := sstep sf (k_honour c) s (op_of st) in
         if negb (st_clean st) && Nat.eqb (st_order st) i then err else present_failed i r s'
     end.
-  Definition pending_entry (i : nat) : option pentry :=
-    find (fun e => order_eqb (fst e) (order_at i)) (spending all_ops).
   Definition item_agrees (it : e2e_item) : bool :=
     match it with
     | EValidation i other obs => Bool.eqb (validates sf feq0 other final_state (order_at i)) obs
@@ -142,12 +140,7 @@ Section Run.
     end.
   Definition item_spec (it : e2e_item) : bool :=
     match it with
-    | EValidation i other obs =>
-        negb (disc all_ops) ||
-        match pending_entry i with
-        | Some e => negb (clean_present other (snd e)) || obs   (* a presented challenge is answered *)
-        | None => negb obs                                       (* nothing once the order is over *)
-        end
+    | EValidation i other obs => validation_spec all_ops (order_at i) other obs
     | EOutcome i validated ca_rejects cancelled obs =>
         (* against a conforming server the order succeeds exactly when nothing was made to fail *)
         Bool.eqb obs (negb (present_failed i (k_steps c) sinit) && validated && negb ca_rejects && negb cancelled)
